@@ -38,7 +38,7 @@ import (
 	"verifharness/internal/pki"
 )
 
-const watchdog = 4 * time.Second
+const watchdog = 3 * time.Second
 
 type liveObs struct {
 	out     string
@@ -782,8 +782,8 @@ func genLive(o hx.Opts, emit func(string)) {
 	// 1. the documented witness first (F8): 50 post-handshake handshake records of 16000 bytes
 	emit("fn=live_flood stack=tlcp victim=server kind=hs n=50 size=16000")
 	emit("fn=live_flood stack=tlcp victim=client kind=hs n=50 size=16000")
-	emit("fn=live_flood stack=dtlcp victim=server kind=hs n=50 size=1000")
-	emit("fn=live_flood stack=dtlcp victim=client kind=hs n=50 size=1000")
+	emit("fn=live_flood stack=dtlcp victim=server kind=hs n=120 size=1000")
+	emit("fn=live_flood stack=dtlcp victim=client kind=hs n=120 size=1000")
 	// F43: a client whose own signing certificate has an RSA / Ed25519 key, asked for a certificate
 	emit("fn=live_cert stack=tlcp victim=client suite=ecc ssig=sm2 senc=sm2 csig=rsa cenc=sm2 auth=1")
 	emit("fn=live_cert stack=dtlcp victim=client suite=ecc ssig=sm2 senc=sm2 csig=ed cenc=sm2 auth=1")
